@@ -79,6 +79,46 @@ func composeCase(r *sg.Rng, kind string, n int, hazard bool, idx int) *sem.Case 
 			branches = append(branches, b)
 		}
 	}
+	// overlapping property sets (allOf): one key declared by 2-3 branches with complementary keywords, so the
+	// conjunction is tighter than any single branch; values violating exactly one branch's view must be rejected
+	type overlapDoc struct {
+		v     any
+		label string
+	}
+	var overlaps []overlapDoc
+	if kind == "allOf" && n >= 2 && r.Chance(0.6) {
+		var views []*sg.Schema
+		var good any
+		var bads []any
+		if r.Chance(0.5) {
+			views = []*sg.Schema{{Types: []string{"string"}, MinLen: 2}, {Types: []string{"string"}, MaxLen: 5}, {Types: []string{"string"}, Pattern: "^[a-z]+$"}}
+			good = "abc"
+			bads = []any{"a", "abcdefgh", "ABC"}
+		} else {
+			views = []*sg.Schema{{Types: []string{"integer"}, Min: sg.Fp(2)}, {Types: []string{"integer"}, Max: sg.Fp(9)}, {Types: []string{"integer"}, MultipleOf: sg.Fp(3)}}
+			good = jsonx.N(6)
+			bads = []any{jsonx.N(0), jsonx.N(12), jsonx.N(7)}
+		}
+		k := 2
+		if n >= 3 && r.Chance(0.5) {
+			k = 3
+		}
+		perm := r.Perm(n)[:k]
+		for vi, bi := range perm {
+			b := branches[bi].Resolve()
+			b.Props = append(b.Props, sg.Prop{Name: "shared", S: views[vi]})
+			if vi == 0 && r.Chance(0.5) {
+				b.Required = append(b.Required, "shared")
+			}
+		}
+		for i := range bdocs {
+			bdocs[i] = bdocs[i].Del("shared")
+		}
+		overlaps = append(overlaps, overlapDoc{good, "overlap-all-views-satisfied"})
+		for vi := 0; vi < k; vi++ {
+			overlaps = append(overlaps, overlapDoc{bads[vi], fmt.Sprintf("overlap-view-%d-violated", vi)})
+		}
+	}
 	comp := &sg.Schema{}
 	if r.Chance(0.5) {
 		comp.Types = []string{"object"}
@@ -118,7 +158,40 @@ func composeCase(r *sg.Rng, kind string, n int, hazard bool, idx int) *sem.Case 
 			}
 		}
 	}
+	for _, ov := range overlaps {
+		o := jsonx.Obj{}
+		for i := 0; i < n; i++ {
+			o = append(o, bdocs[i]...)
+		}
+		o = append(o, jsonx.KV{K: "shared", V: ov.v})
+		var doc any = jsonx.Obj{{K: "c", V: o}, {K: "other", V: "x"}}
+		if pos == 2 {
+			doc = jsonx.Obj{{K: "c", V: []any{o}}, {K: "other", V: "x"}}
+		}
+		c.Docs = append(c.Docs, docgen.Doc{V: doc, Class: "overlap", Label: ov.label})
+	}
+	if len(overlaps) > 0 {
+		// the subset documents must carry a valid shared value where all declaring branches are in S; simplest: add it everywhere
+		for i := range c.Docs {
+			if c.Docs[i].Class != "subset" {
+				continue
+			}
+			c.Docs[i].V = withShared(c.Docs[i].V, overlaps[0].v, pos == 2)
+		}
+		c.Sig += " overlap"
+	}
 	return c
+}
+
+func withShared(doc any, v any, inArray bool) any {
+	o := doc.(jsonx.Obj)
+	cv, _ := o.Get("c")
+	if inArray {
+		a := cv.([]any)
+		inner := a[0].(jsonx.Obj)
+		return o.Set("c", []any{inner.Set("shared", v)})
+	}
+	return o.Set("c", cv.(jsonx.Obj).Set("shared", v))
 }
 
 func mustGet(o jsonx.Obj, k string) any { v, _ := o.Get(k); return v }
